@@ -481,3 +481,334 @@ def type_kind_scope(ctx, res):
                        f"check rejects proxies/mocks that Python's "
                        f"isinstance (the validate method) accepts")
     res.floor(2)
+
+
+# ---------------------------------------------------------------------------
+# C03.fast-path-owner: `T.set_validate(H.<validator>)` installs the compiled
+# validator of handler H on CTrait T.  On every path H must be T's own handler
+# (structurally `T.handler`, established by a dominating `T.handler is H`
+# test, or stored as `T.handler = H` on the same path).  Otherwise the trait's
+# compiled validator and its Python `handler.validate` are those of two
+# different trait types.
+
+def _own_terms(fn):
+    """per path: (sites, facts); terms are values, not names"""
+    from ..cfg import enumerate_paths
+    g = build_cfg(fn, fn.name)
+    out = []
+    for path in enumerate_paths(g, max_paths=4000):
+        env, eq, ne, sites = {}, set(), set(), []
+        cnt = [0]
+
+        def ev(e):
+            if isinstance(e, ast.Name):
+                return env.get(e.id, ("free", e.id))
+            if isinstance(e, ast.Attribute):
+                return ("attr", ev(e.value), e.attr)
+            if isinstance(e, ast.Call) and isinstance(e.func, ast.Name) \
+                    and e.func.id == "getattr" and len(e.args) >= 2 \
+                    and isinstance(e.args[1], ast.Constant):
+                return ("attr", ev(e.args[0]), e.args[1].value)
+            if isinstance(e, ast.Constant):
+                return ("const", repr(e.value))
+            cnt[0] += 1
+            return ("opaque", cnt[0], getattr(e, "lineno", 0))
+
+        def scan_calls(node):
+            for c in ast.walk(node):
+                if isinstance(c, ast.Call) and isinstance(c.func, ast.Attribute) \
+                        and c.func.attr == "set_validate" and len(c.args) == 1:
+                    sites.append((c, ev(c.func.value), ev(c.args[0])))
+
+        for nid, lab in path:
+            nd = g.nodes[nid]
+            a = nd.ast
+            if a is None:
+                continue
+            if nd.kind == "cond":
+                scan_calls(a)
+                if isinstance(a, ast.Compare) and len(a.ops) == 1 \
+                        and isinstance(a.ops[0], (ast.Is, ast.IsNot)) \
+                        and lab in ("T", "F"):
+                    same = isinstance(a.ops[0], ast.Is) == (lab == "T")
+                    pair = frozenset((ev(a.left), ev(a.comparators[0])))
+                    (eq if same else ne).add(pair)
+                continue
+            if nd.kind in ("fornext", "foriter", "with"):
+                continue
+            scan_calls(a)
+            if isinstance(a, ast.Assign):
+                v = ev(a.value)
+                for t in a.targets:
+                    if isinstance(t, ast.Name):
+                        env[t.id] = v
+                    elif isinstance(t, ast.Attribute):
+                        eq.add(frozenset((("attr", ev(t.value), t.attr), v)))
+                    elif isinstance(t, (ast.Tuple, ast.List)):
+                        for el in t.elts:
+                            if isinstance(el, ast.Name):
+                                cnt[0] += 1
+                                env[el.id] = ("opaque", cnt[0], a.lineno)
+            elif isinstance(a, (ast.AugAssign, ast.AnnAssign)) \
+                    and isinstance(a.target, ast.Name):
+                cnt[0] += 1
+                env[a.target.id] = ("opaque", cnt[0], a.lineno)
+        if eq & ne:
+            continue        # contradictory identity tests: infeasible path
+        out.append((sites, eq, ne))
+    return out
+
+
+@rule("C03.fast-path-owner", ["C03", "C01", "C04"],
+      "`T.set_validate(H.<validator>)` installs handler H's compiled "
+      "validator on CTrait T only where H is T's own handler on that path "
+      "(`T.handler`, a dominating `T.handler is H` test, or `T.handler = H`)")
+def fast_path_owner(ctx, res):
+    repo = get_pyrepo(ctx)
+    n = 0
+    for rel, mod in sorted(repo.modules.items()):
+        if "/tests/" in rel or "set_validate" not in mod.src:
+            continue
+        for qual, fn in sorted(mod.functions.items()):
+            if not any(isinstance(c, ast.Call)
+                       and isinstance(c.func, ast.Attribute)
+                       and c.func.attr == "set_validate" and len(c.args) == 1
+                       for c in ast.walk(fn)):
+                continue
+            if any(isinstance(x, ast.FunctionDef) and x is not fn
+                   and any(isinstance(c, ast.Call)
+                           and isinstance(c.func, ast.Attribute)
+                           and c.func.attr == "set_validate"
+                           for c in ast.walk(x)) for x in ast.walk(fn)):
+                continue        # the nested def is analysed on its own
+            bad = {}
+            seen = set()
+            for sites, eq, ne in _own_terms(fn):
+                for call, tT, tv in sites:
+                    if tv[0] != "attr":
+                        continue        # not a handler's validator
+                    h = tv[1]
+                    seen.add(call.lineno)
+                    own = ("attr", tT, "handler")
+                    if h == own or frozenset((own, h)) in eq:
+                        continue
+                    bad.setdefault(call.lineno, (call, frozenset((own, h))
+                                                 in ne))
+            for ln in sorted(seen):
+                n += 1
+                key = f"{rel.split('/')[-1]}:{qual}:set_validate"
+                res.instance(key, f"{rel}:{ln}")
+                if ln in bad:
+                    call, known_other = bad[ln]
+                    res.oblige(False, key + ":owner", f"{rel}:{ln}",
+                               f"`{norm(call)}` is reached on a path where "
+                               f"`{norm(call.args[0]).rsplit('.', 1)[0]}` is "
+                               f"not established to be "
+                               f"`{norm(call.func.value)}.handler`"
+                               + (" (the path even established that it is a "
+                                  "different object)" if known_other else "")
+                               + ": the CTrait gets the compiled validator "
+                               "of a handler that is not its own, so its "
+                               "fast path and its handler.validate are two "
+                               "different trait types")
+                else:
+                    res.oblige(True, key + ":owner", f"{rel}:{ln}", "")
+    res.floor(4)
+
+
+# ---------------------------------------------------------------------------
+# C03.compound-table: TraitCompound.set_validate builds, from one loop over
+# the member handlers, (a) `validates` / `slow_validates`, which the Python
+# `validate` runs in that order, and (b) `fast_validates`, the table the C
+# compound validator walks.  The two agree only if each member contributes to
+# both in the same iteration: a member with a compiled validator contributes
+# `handler.validate` to `validates` and its *complete* compiled entry (for a
+# nested compound: every entry of its table, including its trailing slow
+# entry) to `fast_validates`; a member without one goes to `slow_validates`
+# only.
+
+def _list_effects(stmts, lists):
+    """[(list, method, arg expr, filtered?)] in a statement list (no nested
+    control flow other than a plain `for x in <seq>: L.append(x)`)"""
+    out = []
+    for s in stmts:
+        if isinstance(s, ast.Expr) and isinstance(s.value, ast.Call) \
+                and isinstance(s.value.func, ast.Attribute) \
+                and isinstance(s.value.func.value, ast.Name) \
+                and s.value.func.value.id in lists \
+                and s.value.func.attr in ("append", "extend", "insert") \
+                and s.value.args:
+            a = s.value.args[-1]
+            filtered = isinstance(a, (ast.GeneratorExp, ast.ListComp)) \
+                or (isinstance(a, ast.Call) and norm(a.func) == "filter") \
+                or isinstance(a, ast.Subscript) \
+                and isinstance(a.slice, ast.Slice)
+            if isinstance(a, (ast.GeneratorExp, ast.ListComp)) \
+                    and len(a.generators) == 1 and not a.generators[0].ifs \
+                    and norm(a.elt) == norm(a.generators[0].target):
+                filtered = False
+                a = a.generators[0].iter
+            if isinstance(a, ast.Call) and norm(a.func) in ("list", "tuple") \
+                    and len(a.args) == 1:
+                a = a.args[0]
+            out.append((s.value.func.value.id, s.value.func.attr, a,
+                        filtered, s))
+        elif isinstance(s, ast.For) and len(s.body) == 1 and not s.orelse:
+            inner = _list_effects(s.body, lists)
+            if len(inner) == 1 and inner[0][1] == "append" \
+                    and norm(inner[0][2]) == norm(s.target):
+                out.append((inner[0][0], "extend", s.iter, False, s))
+            else:
+                out.append((None, "complex", s, True, s))
+    return out
+
+
+@rule("C03.compound-table", ["C03"],
+      "TraitCompound.set_validate: per member handler, the Python-order "
+      "lists and the compiled table are filled in lockstep - compiled "
+      "members contribute handler.validate and their complete compiled "
+      "entry (a nested compound's whole table), the others only to "
+      "slow_validates")
+def compound_table(ctx, res):
+    from ..cfg import enumerate_paths
+    repo = get_pyrepo(ctx)
+    rel = "traits/trait_handlers.py"
+    mod = repo.module(rel)
+    fn = repo.func(rel, "TraitCompound.set_validate")
+    loops = [s for s in fn.body if isinstance(s, ast.For)
+             and norm(s.iter) == "self.handlers"]
+    if len(loops) != 1:
+        raise AnalysisError("TraitCompound.set_validate: member loop")
+    loop = loops[0]
+    hv = norm(loop.target)
+    # the lists by role, from what is published after the loop
+    pub = {}
+    for a in ast.walk(fn):
+        if isinstance(a, ast.Assign) and len(a.targets) == 1 \
+                and norm(a.targets[0]) in ("self.validates",
+                                           "self.slow_validates") \
+                and isinstance(a.value, ast.Name):
+            pub[norm(a.targets[0]).split(".")[1]] = a.value.id
+    fast = None
+    for a in ast.walk(fn):
+        if isinstance(a, ast.Assign) \
+                and norm(a.targets[0]) == "self.fast_validate":
+            for nm in ast.walk(a.value):
+                if isinstance(nm, ast.Name) and nm.id not in ("tuple",
+                                                              "ValidateTrait"):
+                    fast = nm.id
+    if set(pub) != {"validates", "slow_validates"} or fast is None:
+        raise AnalysisError("TraitCompound.set_validate: published lists")
+    V, S, Fv = pub["validates"], pub["slow_validates"], fast
+    lists = {V, S, Fv}
+    # the compiled entry of the member
+    fvn = None
+    for a in loop.body:
+        if isinstance(a, ast.Assign) and isinstance(a.targets[0], ast.Name) \
+                and isinstance(a.value, ast.Call) \
+                and norm(a.value.func) == "getattr" \
+                and norm(a.value.args[0]) == hv \
+                and norm(a.value.args[1]) == "'fast_validate'":
+            fvn = a.targets[0].id
+    if fvn is None:
+        raise AnalysisError("TraitCompound.set_validate: member's compiled "
+                            "entry local not found")
+    class _ForToExtend(ast.NodeTransformer):
+        def visit_For(self, node):
+            self.generic_visit(node)
+            if len(node.body) == 1 and not node.orelse:
+                eff = _list_effects(node.body, lists)
+                if len(eff) == 1 and eff[0][1] == "append" \
+                        and norm(eff[0][2]) == norm(node.target):
+                    call = ast.Call(
+                        func=ast.Attribute(value=ast.Name(id=eff[0][0],
+                                                          ctx=ast.Load()),
+                                           attr="extend", ctx=ast.Load()),
+                        args=[node.iter], keywords=[])
+                    return ast.copy_location(
+                        ast.fix_missing_locations(ast.Expr(value=call)), node)
+            return node
+    import copy as _copy
+    body = [_ForToExtend().visit(_copy.deepcopy(s_)) for s_ in loop.body]
+    for b_ in body:
+        ast.fix_missing_locations(b_)
+    wrapper = ast.FunctionDef(name="body", args=fn.args, body=body,
+                              decorator_list=[], lineno=loop.lineno,
+                              col_offset=0)
+    g = build_cfg(wrapper, "set_validate.body")
+    n = 0
+    seen = set()
+    for path in enumerate_paths(g, max_paths=5000):
+        facts = {}
+        effects = []
+        for nid, lab in path:
+            nd = g.nodes[nid]
+            a = nd.ast
+            if a is None:
+                continue
+            if nd.kind == "cond":
+                facts[norm(a)] = (lab == "T")
+                continue
+            if nd.kind in ("fornext", "foriter"):
+                if nd.kind == "foriter":
+                    continue
+                # a nested for: treat as one statement when entered first
+                continue
+            effects += [e for e in _list_effects([a], lists)]
+        # nested `for` bodies are reached through fornext nodes; recover
+        # them from the statements of the loop body instead
+        compiled = facts.get(f"{fvn} is not None",
+                             None if f"{fvn} is None" not in facts
+                             else not facts[f"{fvn} is None"])
+        if compiled is None:
+            continue
+        nested = None
+        for t, v in facts.items():
+            if "ValidateTrait.complex" in t and f"{fvn}[0]" in t:
+                nested = v if "==" in t else (not v if "!=" in t else None)
+        by = {}
+        for lst, meth, arg, filt, node in effects:
+            by.setdefault(lst, []).append((meth, norm(arg), filt, node))
+        sig = (compiled, nested, tuple(sorted((k, tuple(x[:3] for x in v))
+                                              for k, v in by.items()
+                                              if k)))
+        if sig in seen:
+            continue
+        seen.add(sig)
+        n += 1
+        key = "set_validate:" + ("compiled" if compiled else "slow") + (
+            ":nested" if nested else "")
+        loc = mod.loc(loop)
+        if compiled:
+            res.oblige([x[:2] for x in by.get(V, [])]
+                       == [("append", f"{hv}.validate")], key + ":validates",
+                       loc, f"a compiled member must contribute "
+                       f"{hv}.validate to `{V}` exactly once; found "
+                       f"{[x[:2] for x in by.get(V, [])]}")
+            res.oblige(not by.get(S), key + ":slow-untouched", loc,
+                       f"a compiled member also feeds `{S}` "
+                       f"({[x[:2] for x in by.get(S, [])]}): those validators "
+                       f"are run by the trailing slow entry of *this* "
+                       f"compound, after all compiled alternatives, while "
+                       f"the Python validate runs them at the member's "
+                       f"position")
+            want = [("extend", f"{fvn}[1]", False)] if nested else \
+                [("append", fvn, False)]
+            got = [x[:3] for x in by.get(Fv, [])]
+            res.oblige(got == want, key + ":table", loc,
+                       f"the compiled table receives {got} for this member; "
+                       f"expected {want} (its complete compiled entry"
+                       + (", including the nested compound's slow entry at "
+                          "its position)" if nested else ")"))
+        else:
+            res.oblige([x[:2] for x in by.get(S, [])]
+                       == [("append", f"{hv}.validate")]
+                       and not by.get(V) and not by.get(Fv), key + ":lists",
+                       loc, f"a member without a compiled validator must "
+                       f"contribute {hv}.validate to `{S}` only; found "
+                       f"{ {k: [x[:2] for x in v] for k, v in by.items()} }")
+    res.instance("TraitCompound.set_validate", mod.loc(fn), cases=n)
+    if n < 3:
+        raise AnalysisError(f"TraitCompound.set_validate: {n} member cases "
+                            f"recognised (expected compiled / nested / slow)")
+    res.floor(1)
